@@ -170,8 +170,8 @@ class ConfigService:
         :param filename: the frame file name
         :return: True if add frame, else False
         """
-        in_app_include = self.IN_APP_INCLUDE
-        in_app_exclude = self.IN_APP_EXCLUDE
+        in_app_include = self.__as_prefix_list(self.IN_APP_INCLUDE)
+        in_app_exclude = self.__as_prefix_list(self.IN_APP_EXCLUDE)
 
         for path in in_app_exclude:
             if filename.startswith(path):
@@ -185,6 +185,15 @@ class ConfigService:
             return True, self.APP_ROOT
 
         return False, None
+
+    @staticmethod
+    def __as_prefix_list(value) -> List[str]:
+        # the documented form is a comma separated string - iterating a string would test single characters
+        if value is None:
+            return []
+        if isinstance(value, str):
+            return [prefix for prefix in value.split(',') if prefix]
+        return value
 
     def _find_plugin(self, plugin_type) -> PLUGIN_TYPE:
         return next(self.__plugin_generator(plugin_type), None)
